@@ -32,17 +32,13 @@ import (
 	paramproposal "github.com/cosmos/cosmos-sdk/x/params/types/proposal"
 	gogoproto "github.com/cosmos/gogoproto/proto"
 
-	ibcchanneltypes "github.com/cosmos/ibc-go/v8/modules/core/04-channel/types"
-	evmtypes "github.com/evmos/ethermint/x/evm/types"
-	feemarkettypes "github.com/evmos/ethermint/x/feemarket/types"
-
+	stakingtypes "github.com/cosmos/cosmos-sdk/x/staking/types"
 	denomtypes "github.com/dymensionxyz/dymension/v3/x/denommetadata/types"
 	dymnstypes "github.com/dymensionxyz/dymension/v3/x/dymns/types"
 	eibctypes "github.com/dymensionxyz/dymension/v3/x/eibc/types"
 	irotypes "github.com/dymensionxyz/dymension/v3/x/iro/types"
 	lockuptypes "github.com/dymensionxyz/dymension/v3/x/lockup/types"
 	rollapptypes "github.com/dymensionxyz/dymension/v3/x/rollapp/types"
-	stakingtypes "github.com/cosmos/cosmos-sdk/x/staking/types"
 	seqtypes "github.com/dymensionxyz/dymension/v3/x/sequencer/types"
 	sponstypes "github.com/dymensionxyz/dymension/v3/x/sponsorship/types"
 	streamertypes "github.com/dymensionxyz/dymension/v3/x/streamer/types"
@@ -54,11 +50,11 @@ const (
 	oLock     = 2
 	oName     = 3
 	oLP       = 4
-	oBuy      = 5 // buy order on the name (owner = buyer)
-	oPlanRA   = 6 // rollapp r1 (not launched) carrying the IRO plan
-	oCtrl     = 7 // the controller role of the name (owner = current controller)
-	oSeq2     = 8 // a second, non-proposer sequencer of r0
-	oProposer = 9 // the proposer role of r0 (owner = the actor whose sequencer is the current proposer)
+	oBuy      = 5  // buy order on the name (owner = buyer)
+	oPlanRA   = 6  // rollapp r1 (not launched) carrying the IRO plan
+	oCtrl     = 7  // the controller role of the name (owner = current controller)
+	oSeq2     = 8  // a second, non-proposer sequencer of r0
+	oProposer = 9  // the proposer role of r0 (owner = the actor whose sequencer is the current proposer)
 	oVote     = 10 // the sponsorship vote of a3 (addressed by the voter itself)
 	c20Actors = 5
 )
@@ -95,7 +91,8 @@ type c20Priv struct {
 	voteOK  bool
 	kinds   []*c20PK
 	byKey   map[string]*c20PK
-	ext     []string // type URLs of every routed message with an Authority field
+	ext     []string // type URLs of every routed governance-only message
+	extT    []c20ExtTarget
 	stats   map[string]int
 	ready   bool
 }
@@ -145,19 +142,13 @@ func newC20Priv(s *c20State) *c20Priv {
 		f.Fund(Actor(i), sdk.NewCoin("adym", pow10(1, 30)), sdk.NewCoin("stake", pow10(1, 30)))
 	}
 	p.defineKinds()
-	// every routed message type with an Authority field
-	reg := f.App.InterfaceRegistry()
-	for _, url := range reg.ListImplementations(sdk.MsgInterfaceProtoName) {
-		if f.App.MsgServiceRouter().HandlerByTypeURL(url) == nil {
-			continue
-		}
-		m, err := reg.Resolve(url)
-		if err != nil {
-			continue
-		}
-		if fld, ok := reflect.TypeOf(m).Elem().FieldByName("Authority"); ok && fld.Type.Kind() == reflect.String {
-			p.ext = append(p.ext, url)
-		}
+	// every routed governance-only message type (c20_ext_test.go)
+	if s.extHit == nil {
+		s.extHit, s.extMiss = map[string]bool{}, map[string]string{}
+	}
+	p.extT = p.extTargets()
+	for _, t := range p.extT {
+		p.ext = append(p.ext, t.url)
 	}
 	sort.Strings(p.ext)
 	return p
@@ -234,6 +225,8 @@ func (p *c20Priv) setup() {
 	p.gauge = gs[0].Id
 	f.Fund(authtypes.NewModuleAddress(streamertypes.ModuleName), sdk.NewCoin("adym", pow10(1, 26)))
 	p.fixStream()
+	// --- the community pool has something to spend
+	p.must("fund community pool", f.App.DistrKeeper.FundCommunityPool(f.Ctx, sdk.NewCoins(coinA(1_000_000)), Actor(0)))
 	// --- a3 stakes and votes for the gauge (sponsorship)
 	p.fixVote()
 	// --- a denom with metadata (for the update proposal)
@@ -718,7 +711,10 @@ func (p *c20Priv) exec(line string, f []string) string {
 		}
 		return "ok"
 	case "ext":
-		return p.execExt(line, f)
+		if !p.ready {
+			return "bad-op"
+		}
+		return p.execExt2(line, f)
 	case "rows":
 		// how many message types of the custom modules the application really routes
 		p.s.seq = append(p.s.seq, "rows")
@@ -850,60 +846,6 @@ func (p *c20Priv) ownerRole(tok string) (int, bool) {
 	return 0, false
 }
 
-func (p *c20Priv) execExt(line string, f []string) string {
-	r := p.s.r
-	if len(f) != 3 {
-		return "bad-op"
-	}
-	signer, ok := p.signerAddr(f[2])
-	if !ok || f[2] == "gov" {
-		return "bad-op"
-	}
-	m, err := p.f.App.InterfaceRegistry().Resolve(f[1])
-	if err != nil {
-		return "bad-op"
-	}
-	reflect.ValueOf(m).Elem().FieldByName("Authority").SetString(signer.String())
-	// a few external types validate their params before the handler sees the authority: give them
-	// the module's current params so that the authority check is what rejects
-	switch x := m.(type) {
-	case *evmtypes.MsgUpdateParams:
-		x.Params = p.f.App.EvmKeeper.GetParams(p.f.Ctx)
-	case *feemarkettypes.MsgUpdateParams:
-		x.Params = p.f.App.FeeMarketKeeper.GetParams(p.f.Ctx)
-	case *ibcchanneltypes.MsgUpdateParams:
-		x.Params = p.f.App.IBCKeeper.ChannelKeeper.GetParams(p.f.Ctx)
-	}
-	sm, ok := m.(sdk.Msg)
-	if !ok {
-		return "bad-op"
-	}
-	before := p.f.StoreDigest()
-	_, derr := p.deliver(sm)
-	after := p.f.StoreDigest()
-	replay := append([]string{}, p.s.trace...)
-	if derr == nil {
-		r.Violate("C20/authority/"+f[1]+"/accepted-from-non-authority", "message with an Authority field signed by "+f[2]+" succeeded", replay...)
-		return "ok"
-	}
-	if before != after {
-		r.Violate("C20/no-state-change/"+f[1]+"/state-changed-by-failed-message", fmt.Sprintf("digest %s -> %s", before, after), replay...)
-	}
-	low := strings.ToLower(derr.Error())
-	if strings.Contains(low, "authority") || strings.Contains(low, "unauthorized") || strings.Contains(low, "expected") || strings.Contains(low, "only the gov") {
-		r.Hit("ext/rejected-by-authority-check")
-	} else {
-		r.Hit("ext/rejected-before-authority-check(zero-content)")
-		msg := derr.Error()
-		if len(msg) > 100 {
-			msg = msg[:100]
-		}
-		p.s.ctrlErr["ext:"+f[1]] = msg
-	}
-	p.s.seq = append(p.s.seq, "ext:"+f[1]+":rej")
-	return "rej"
-}
-
 // ---- generator --------------------------------------------------------------------------
 
 func (p *c20Priv) generate(run func(string) string, nOps int) {
@@ -1026,6 +968,7 @@ func (p *c20Priv) finish() {
 	p.s.r.Set("priv-kinds-never-accepted-from-privileged", nopos)
 	p.s.r.Set("priv-last-dry-run-error-per-kind", p.s.ctrlErr)
 	p.s.r.Set("ext-authority-message-types", len(p.ext))
+	p.finishExt()
 }
 
 // ---- signer fields: which Go field of a custom message names its signer, found by probing -------
